@@ -7,7 +7,7 @@ VERIF = os.path.dirname(os.path.dirname(os.path.abspath(__file__)))
 SPEC = os.path.join(VERIF, "spec")
 HARNESS = os.path.join(VERIF, "harness")
 BUILD = os.path.join(VERIF, ".build")
-EVID = os.path.join(VERIF, "evidence")
+EVID = os.environ.get("VERIF_EVIDENCE", os.path.join(VERIF, "evidence"))
 REPLAYDIR = os.path.join(EVID, "replay")
 KNOWN = os.path.join(VERIF, "KNOWN_FINDINGS.txt")
 NCPU = os.cpu_count() or 4
@@ -51,14 +51,27 @@ class Run:
 # build
 
 def build(race=False):
-    os.makedirs(BUILD, exist_ok=True)
-    shutil.copy("/repo/go.sum", os.path.join(HARNESS, "go.sum"))
-    out = os.path.join(BUILD, "vreplay-race" if race else "vreplay")
+    """Builds the replayer against /repo's working tree. For experiments with seeded changes in scratch
+    worktrees (never for the registered checks) VERIF_REPO may name another checkout."""
+    repo = os.environ.get("VERIF_REPO", "/repo")
+    harness, outdir = HARNESS, BUILD
+    if repo != "/repo":
+        outdir = "/tmp/verif.build.%d" % os.getpid()
+        harness = os.path.join(outdir, "harness")
+        shutil.rmtree(outdir, ignore_errors=True)
+        shutil.copytree(HARNESS, harness)
+        gm = open(os.path.join(harness, "go.mod")).read().replace("=> /repo", "=> " + repo)
+        open(os.path.join(harness, "go.mod"), "w").write(gm)
+        import atexit
+        atexit.register(lambda: shutil.rmtree(outdir, ignore_errors=True))
+    os.makedirs(outdir, exist_ok=True)
+    shutil.copy(os.path.join(repo, "go.sum"), os.path.join(harness, "go.sum"))
+    out = os.path.join(outdir, "vreplay-race" if race else "vreplay")
     cmd = ["go", "build", "-tags", "verif", "-o", out]
     if race:
         cmd.insert(2, "-race")
     cmd.append("./cmd/vreplay")
-    p = subprocess.run(cmd, cwd=HARNESS, env=GOENV, capture_output=True, text=True)
+    p = subprocess.run(cmd, cwd=harness, env=GOENV, capture_output=True, text=True)
     if p.returncode != 0:
         raise Infra("go build failed:\n" + p.stdout + p.stderr)
     return out
